@@ -191,7 +191,7 @@ def distinct_models(objs):
     return FA('str', 'str', lambda a, b: Implies(And(objs.has(a), objs.has(b), a != b), objs[a].model != objs[b].model))
 
 
-c = contract('SdRunner.run_scenario_step', file=F_RUN, props=['C07', 'C09'], ghost=GH5, allocates=True,
+c = contract('SdRunner.run_scenario_step', file=F_RUN, props=['C07', 'C09', 'C06'], ghost=GH5, allocates=True,
              params=dict(self=TRef('SdRunner'), step=REAL, settings=STEP_SETTINGS, scenario_manager=STR, scenarios=ANY, equations=ANY),
              returns=ANY,
              requires=lambda C: C.self.scenario_manager_factory != NULL,
